@@ -878,17 +878,23 @@ pub fn headers(bytes: &Bytes) -> Result<(HeaderMap, usize), Error> {
             RequestParseStage::HeaderName(..) => {
                 if byte == b':' {
                     name_end = pos;
-                    if bytes.get(pos + 1) != Some(&chars::SPACE) {
+                    if !matches!(bytes.get(pos + 1), Some(&(chars::SPACE | chars::TAB))) {
                         parse_stage.next();
                         // No space after the colon: the value starts right after it.
                         value_start = pos + 1;
                     }
                     continue;
                 }
-                if byte == chars::SPACE {
+                // The optional whitespace around a value is spaces and horizontal tabs.
+                if byte == chars::SPACE || byte == chars::TAB {
                     parse_stage.next();
                     let rest = &bytes[pos..];
-                    value_start = rest.iter().copied().position(|b| b != b' ').unwrap_or(0) + pos;
+                    value_start = rest
+                        .iter()
+                        .copied()
+                        .position(|b| b != chars::SPACE && b != chars::TAB)
+                        .unwrap_or(0)
+                        + pos;
                 }
             }
             RequestParseStage::HeaderValue(..) => {
@@ -901,11 +907,17 @@ pub fn headers(bytes: &Bytes) -> Result<(HeaderMap, usize), Error> {
                     .ok()
                     .ok_or(Error::IllegalName)?;
                     // Only strip a CR if there is one: the line may end in a bare LF.
-                    let value_end = if pos > 0 && bytes[pos - 1] == chars::CR {
+                    let mut value_end = if pos > 0 && bytes[pos - 1] == chars::CR {
                         pos - 1
                     } else {
                         pos
                     };
+                    // Whitespace after the value isn't part of it.
+                    while value_end > value_start
+                        && matches!(bytes[value_end - 1], chars::SPACE | chars::TAB)
+                    {
+                        value_end -= 1;
+                    }
                     let value = HeaderValue::from_maybe_shared(bytes.slice(value_start..value_end))
                         .ok()
                         .ok_or(Error::IllegalValue)?;
